@@ -14,8 +14,14 @@ namespace Qx.C19
   unfold Recv.terminate; split <;> rfl
 @[simp] theorem Recv.terminate_hash (r : Recv) (c : JError) : (r.terminate c).hash = r.hash := by
   unfold Recv.terminate; split <;> rfl
+@[simp] theorem Recv.terminate_fedRev (r : Recv) (c : JError) : (r.terminate c).fedRev = r.fedRev := by
+  unfold Recv.terminate; split <;> rfl
+@[simp] theorem Recv.terminate_dev (r : Recv) (c : JError) : (r.terminate c).dev = r.dev := by
+  unfold Recv.terminate; split <;> rfl
 @[simp] theorem Recv.terminate_acc (r : Recv) (c : JError) : (r.terminate c).acc = r.acc := by
   simp [Recv.acc]
+@[simp] theorem Recv.terminate_fed (r : Recv) (c : JError) : (r.terminate c).fed = r.fed := by
+  simp [Recv.fed]
 @[simp] theorem Recv.terminate_checkFails (H : List UInt8 → List UInt8) (r : Recv) (c : JError) :
     (r.terminate c).checkFails H = r.checkFails H := by
   simp [Recv.checkFails]
@@ -28,12 +34,55 @@ namespace Qx.C19
   unfold Recv.checkData; split <;> simp
 @[simp] theorem Recv.checkData_hash (H : List UInt8 → List UInt8) (r : Recv) : (r.checkData H).hash = r.hash := by
   unfold Recv.checkData; split <;> simp
+@[simp] theorem Recv.checkData_fedRev (H : List UInt8 → List UInt8) (r : Recv) : (r.checkData H).fedRev = r.fedRev := by
+  unfold Recv.checkData; split <;> simp
+@[simp] theorem Recv.checkData_dev (H : List UInt8 → List UInt8) (r : Recv) : (r.checkData H).dev = r.dev := by
+  unfold Recv.checkData; split <;> simp
 @[simp] theorem Recv.checkData_acc (H : List UInt8 → List UInt8) (r : Recv) : (r.checkData H).acc = r.acc := by
   simp [Recv.acc]
+@[simp] theorem Recv.checkData_fed (H : List UInt8 → List UInt8) (r : Recv) : (r.checkData H).fed = r.fed := by
+  simp [Recv.fed]
 
-theorem Recv.acc_write (r : Recv) (pl : List UInt8) (e : UInt16) :
-    ({ r with accRev := pl.reverse ++ r.accRev, expected := e } : Recv).acc = r.acc ++ pl := by
-  simp [Recv.acc]
+/-! `Recv.write` touches the device content and the hash input only -/
+@[simp] theorem Recv.write_state (r : Recv) (pl : List UInt8) : (r.write pl).state = r.state := by
+  unfold Recv.write; split <;> rfl
+@[simp] theorem Recv.write_error (r : Recv) (pl : List UInt8) : (r.write pl).error = r.error := by
+  unfold Recv.write; split <;> rfl
+@[simp] theorem Recv.write_size (r : Recv) (pl : List UInt8) : (r.write pl).size = r.size := by
+  unfold Recv.write; split <;> rfl
+@[simp] theorem Recv.write_hash (r : Recv) (pl : List UInt8) : (r.write pl).hash = r.hash := by
+  unfold Recv.write; split <;> rfl
+@[simp] theorem Recv.write_expected (r : Recv) (pl : List UInt8) : (r.write pl).expected = r.expected := by
+  unfold Recv.write; split <;> rfl
+@[simp] theorem Recv.write_dev (r : Recv) (pl : List UInt8) : (r.write pl).dev = r.dev := by
+  unfold Recv.write; split <;> rfl
+
+/-- a device never takes more than offered -/
+theorem Dev.accept_le (d : Dev) (held : Unit → Nat) (n w : Nat) (h : d.accept held n = some w) : w ≤ n := by
+  cases d <;> simp only [Dev.accept] at h
+  · simp at h; omega
+  · simp at h; omega
+  · simp at h; omega
+  · split at h <;> simp at h; omega
+
+/-- what one `write()` does to the device content: a prefix of the block is appended -/
+theorem Recv.write_acc (r : Recv) (pl : List UInt8) : ∃ w, w ≤ pl.length ∧ (r.write pl).acc = r.acc ++ pl.take w := by
+  unfold Recv.write
+  split
+  · exact ⟨0, by omega, by simp⟩
+  · rename_i w hw
+    exact ⟨w, Dev.accept_le _ _ _ _ hw, by simp [Recv.acc]⟩
+
+theorem Recv.write_unlimited_eq (r : Recv) (pl : List UInt8) (h : r.dev = .unlimited) :
+    r.write pl = { r with accRev := pl.reverse ++ r.accRev, fedRev := pl.reverse ++ r.fedRev } := by
+  unfold Recv.write
+  simp only [h, Dev.accept, List.take_length]
+
+/-- a device that takes everything -/
+theorem Recv.write_unlimited (r : Recv) (pl : List UInt8) (h : r.dev = .unlimited) :
+    (r.write pl).acc = r.acc ++ pl ∧ (r.write pl).fed = r.fed ++ pl := by
+  unfold Recv.write
+  simp [h, Dev.accept, Recv.acc, Recv.fed]
 
 /-- a job that failed the final check never reports success -/
 theorem Recv.checkData_fails_not_success (H : List UInt8 → List UInt8) (r : Recv)
@@ -104,7 +153,7 @@ theorem recv_checked (H : List UInt8 → List UInt8) (r : Recv) (p : Stanza) (h 
         · exact h
         · rename_i hck _
           intro _ _
-          simpa [Recv.checkFails, Recv.acc] using hck
+          simpa [Recv.checkFails, Recv.acc, Recv.fed] using hck
     · -- data
       split
       · exact h
@@ -124,7 +173,7 @@ theorem run_checked (H : List UInt8 → List UInt8) (ops : List Op) (st : St) (h
   run_r_inv H (Checked H) (recv_checked H) ops st h
 
 theorem checkFails_false_iff (H : List UInt8 → List UInt8) (r : Recv) :
-    r.checkFails H = false ↔ (r.size ≠ 0 → r.acc.length = r.size) ∧ (∀ h, r.hash = some h → H r.acc = h) := by
+    r.checkFails H = false ↔ (r.size ≠ 0 → r.acc.length = r.size) ∧ (∀ h, r.hash = some h → H r.fed = h) := by
   unfold Recv.checkFails
   cases hh : r.hash <;> simp <;> omega
 
@@ -238,6 +287,77 @@ theorem recv_foreign (H : List UInt8 → List UInt8) (r : Recv) (p : Stanza) (h 
 end Qx.C19
 namespace Qx.C19
 
+/-! ### device content versus hash input -/
+
+theorem Recv.write_cases (r : Recv) (pl : List UInt8) :
+    ((r.write pl).acc = r.acc ∧ (r.write pl).fed = r.fed) ∨
+    ∃ w, w ≤ pl.length ∧ (r.write pl).acc = r.acc ++ pl.take w ∧ (r.write pl).fed = r.fed ++ pl := by
+  unfold Recv.write
+  split
+  · exact Or.inl ⟨rfl, rfl⟩
+  · rename_i w hw
+    exact Or.inr ⟨w, Dev.accept_le _ _ _ _ hw, by simp [Recv.acc], by simp [Recv.fed]⟩
+
+/-- what the device holds is exactly what the running hash has seen — or strictly fewer bytes (after a short write) -/
+def AF (r : Recv) : Prop := r.acc = r.fed ∨ r.acc.length < r.fed.length
+
+theorem write_AF (r : Recv) (pl : List UInt8) (h : AF r) : AF (r.write pl) := by
+  rcases Recv.write_cases r pl with ⟨h1, h2⟩ | ⟨w, hw, h1, h2⟩
+  · unfold AF; rw [h1, h2]; exact h
+  · unfold AF; rw [h1, h2]
+    by_cases hfull : w = pl.length
+    · rcases h with h | h
+      · left; rw [h, hfull, List.take_length]
+      · right; simp only [List.length_append, List.length_take]; omega
+    · right
+      have : r.acc.length ≤ r.fed.length := by
+        rcases h with h | h
+        · rw [h]; exact Nat.le_refl _
+        · omega
+      simp only [List.length_append, List.length_take]; omega
+
+theorem recv_AF (H : List UInt8 → List UInt8) (r : Recv) (p : Stanza) (h : AF r) : AF (recv H r p).1 := by
+  unfold recv
+  split
+  · exact h
+  · split
+    · simpa [AF] using h
+    · split
+      · exact h
+      · split
+        · exact h
+        · apply write_AF
+          simpa [AF, Recv.acc, Recv.fed] using h
+    · split
+      · exact h
+      · simpa [AF, Recv.acc, Recv.fed] using h
+
+/-- with a device that takes everything the two are always equal -/
+def AFU (r : Recv) : Prop := r.dev = .unlimited ∧ r.acc = r.fed
+
+theorem recv_AFU (H : List UInt8 → List UInt8) (r : Recv) (p : Stanza) (h : AFU r) : AFU (recv H r p).1 := by
+  unfold recv
+  split
+  · exact h
+  · split
+    · simpa [AFU] using h
+    · split
+      · exact h
+      · split
+        · exact h
+        · rename_i seq pl _ _ _
+          have hw := Recv.write_unlimited { r with expected := r.expected + 1 } pl h.1
+          refine ⟨by simpa using h.1, ?_⟩
+          rw [hw.1, hw.2]
+          show r.acc ++ pl = r.fed ++ pl
+          rw [h.2]
+    · split
+      · exact h
+      · simpa [AFU, Recv.acc, Recv.fed] using h
+
+end Qx.C19
+namespace Qx.C19
+
 /-! ### what the sender emits, what the receiver then holds -/
 
 /-- a request really produced by the sending job for file `data` with block size `bs`: block number `n`,
@@ -252,12 +372,16 @@ def Genuine (data : List UInt8) (bs : Nat) (p : Stanza) : Prop :=
 def SInv (data : List UInt8) (bs : Nat) (s : Send) : Prop :=
   s.blockSize = bs ∧ ∃ n, s.seq = UInt16.ofNat n ∧ s.rest = data.drop (n * bs)
 
-/-- the receiving job holds the first `e ≤ 65536` blocks and waits for sequence number `e mod 65536` — or, once its
-counter has wrapped after a complete file of exactly 65536 blocks, it has accepted a replayed block and holds MORE
-bytes than the file has (a state from which the size check can never pass again) -/
-def RInv (data : List UInt8) (bs : Nat) (r : Recv) : Prop :=
-  (∃ e, e ≤ 65536 ∧ r.expected = UInt16.ofNat e ∧ r.acc = data.take (e * bs)) ∨
-  (data ≠ [] ∧ data.length < r.acc.length)
+/-- `B` = bound on the number of blocks of the file (`data.length ≤ B * bs`, `B ≤ 65536`).
+The receiving job waits for sequence number `e mod 65536`, `e ≤ B`, and its device holds the first `e` blocks —
+or, with a device that may take less than offered (only allowed for `B < 65536`), strictly fewer bytes than those;
+or, once the counter has wrapped after a complete file of exactly 65536 blocks (`B = 65536`, device takes everything),
+it has accepted a replayed block and holds MORE bytes than the file has (the size check can never pass again). -/
+def RInv (data : List UInt8) (bs B : Nat) (r : Recv) : Prop :=
+  (B = 65536 → r.dev = .unlimited) ∧
+  ((∃ e, e ≤ B ∧ r.expected = UInt16.ofNat e ∧
+      (r.acc = data.take (e * bs) ∨ (B < 65536 ∧ r.acc.length < (data.take (e * bs)).length))) ∨
+   (data ≠ [] ∧ data.length < r.acc.length))
 
 @[simp] theorem Send.terminate_rest (s : Send) (c : JError) : (s.terminate c).rest = s.rest := by
   unfold Send.terminate; split <;> rfl
@@ -313,12 +437,12 @@ theorem block_exists (data : List UInt8) (bs n : Nat) (hne : (data.drop (n * bs)
   rw [List.drop_of_length_le (by omega)]
   simp
 
-theorem block_index_lt (data : List UInt8) (bs n : Nat) (hlen : data.length ≤ 65536 * bs)
-    (hne : (data.drop (n * bs)).take bs ≠ []) : n < 65536 := by
+theorem block_index_lt (data : List UInt8) (bs n B : Nat) (hlen : data.length ≤ B * bs)
+    (hne : (data.drop (n * bs)).take bs ≠ []) : n < B := by
   have h1 : n * bs < data.length := block_exists data bs n hne
   apply Classical.byContradiction
   intro hc
-  have : 65536 * bs ≤ n * bs := Nat.mul_le_mul_right bs (by omega)
+  have : B * bs ≤ n * bs := Nat.mul_le_mul_right bs (by omega)
   omega
 
 theorem ofNat_inj_of_lt (a b : Nat) (ha : a < 65536) (hb : b < 65536) (h : UInt16.ofNat a = UInt16.ofNat b) : a = b := by
@@ -328,9 +452,9 @@ theorem ofNat_inj_of_lt (a b : Nat) (ha : a < 65536) (hb : b < 65536) (h : UInt1
 theorem ofNat_65536 : UInt16.ofNat 65536 = UInt16.ofNat 0 := by decide
 
 /-- needs the file to have at most 65536 blocks: otherwise block `n + 65536` is indistinguishable from block `n` -/
-theorem recv_RInv (H : List UInt8 → List UInt8) (data : List UInt8) (bs : Nat) (hlen : data.length ≤ 65536 * bs)
-    (r : Recv) (p : Stanza)
-    (h : RInv data bs r) (hp : Genuine data bs p ∨ Foreign p) : RInv data bs (recv H r p).1 := by
+theorem recv_RInv (H : List UInt8 → List UInt8) (data : List UInt8) (bs B : Nat) (hB : B ≤ 65536)
+    (hlen : data.length ≤ B * bs) (r : Recv) (p : Stanza)
+    (h : RInv data bs B r) (hp : Genuine data bs p ∨ Foreign p) : RInv data bs B (recv H r p).1 := by
   by_cases hf : Foreign p
   · rw [recv_foreign H r p hf]; exact h
   have hg : Genuine data bs p := hp.resolve_right hf
@@ -349,29 +473,63 @@ theorem recv_RInv (H : List UInt8 → List UInt8) (data : List UInt8) (bs : Nat)
         · exact h
         · rename_i hseq
           simp only [ne_eq, Decidable.not_not] at hseq
-          have hn' : n < 65536 := block_index_lt data bs n hlen (hpl ▸ hne)
+          have hn' : n < B := block_index_lt data bs n B hlen (hpl ▸ hne)
           have hdne : data ≠ [] := by
             intro hd; apply hne; rw [hpl, hd]; simp
-          rcases h with ⟨e, he, hexp, hacc⟩ | ⟨hd, hover⟩
-          · by_cases he' : e < 65536
+          have hpos : 0 < pl.length := List.length_pos_iff.mpr hne
+          obtain ⟨hdev, h⟩ := h
+          refine ⟨by simpa using hdev, ?_⟩
+          -- what the single write() does to the device content
+          obtain ⟨w, hw, hacc'⟩ := Recv.write_acc { r with expected := r.expected + 1 } pl
+          have hacc'' : (({ r with expected := r.expected + 1 } : Recv).write pl).acc = r.acc ++ pl.take w := hacc'
+          have hfullw : B = 65536 → w = pl.length := by
+            intro hb
+            have hu := (Recv.write_unlimited { r with expected := r.expected + 1 } pl (hdev hb)).1
+            have : r.acc ++ pl.take w = r.acc ++ pl := by rw [← hacc'']; exact hu
+            have := congrArg List.length (List.append_cancel_left this)
+            rw [List.length_take] at this
+            omega
+          rcases h with ⟨e, he, hexp, hJ⟩ | ⟨hd, hover⟩
+          · by_cases he' : e < B
             · -- the expected block arrives
-              have hne' : n = e := ofNat_inj_of_lt n e hn' he' (by rw [← hn, hseq, hexp])
+              have hne' : n = e := ofNat_inj_of_lt n e (by omega) (by omega) (by rw [← hn, hseq, hexp])
               left
               refine ⟨e + 1, by omega, ?_, ?_⟩
-              · show r.expected + 1 = UInt16.ofNat (e + 1)
+              · simp only [Recv.write_expected]
                 rw [ofNat_succ, hexp]
-              · rw [Recv.acc_write, hacc, hpl, hne', Nat.succ_mul, List.take_add]
-            · -- the file is complete and the counter has wrapped: a replayed block 0 is taken, the receiver now
-              -- holds more than the file
-              right
-              refine ⟨hdne, ?_⟩
-              have he65 : e = 65536 := by omega
-              rw [Recv.acc_write, hacc, he65, List.take_of_length_le hlen, List.length_append]
-              have : 0 < pl.length := List.length_pos_iff.mpr hne
-              omega
+              · have hoff : data.take ((e + 1) * bs) = data.take (e * bs) ++ pl := by
+                  rw [hpl, hne', Nat.succ_mul, List.take_add]
+                rw [hacc'', hoff]
+                by_cases hfull : w = pl.length
+                · rcases hJ with hJ | ⟨hb, hJ⟩
+                  · left; rw [hJ, hfull, List.take_length]
+                  · right; refine ⟨hb, ?_⟩
+                    simp only [List.length_append, List.length_take] at hJ ⊢; omega
+                · right
+                  have hb : B < 65536 := by
+                    apply Classical.byContradiction
+                    intro hc
+                    exact hfull (hfullw (by omega))
+                  refine ⟨hb, ?_⟩
+                  rcases hJ with hJ | ⟨_, hJ⟩
+                  · rw [hJ]; simp only [List.length_append, List.length_take]; omega
+                  · simp only [List.length_append, List.length_take] at hJ ⊢; omega
+            · -- e = B: every block of the file has been taken
+              have heB : e = B := by omega
+              by_cases hb : B = 65536
+              · -- … and the counter has wrapped: a replayed block is taken, the device now holds more than the file
+                right
+                refine ⟨hdne, ?_⟩
+                rcases hJ with hJ | ⟨hlt, _⟩
+                · rw [hacc'', hJ, heB, List.take_of_length_le hlen, hfullw hb, List.take_length, List.length_append]
+                  omega
+                · omega
+              · -- B < 65536: no block of the file carries sequence number B
+                have := ofNat_inj_of_lt n B (by omega) (by omega) (by rw [← hn, hseq, hexp, heB])
+                omega
           · right
             refine ⟨hd, ?_⟩
-            rw [Recv.acc_write, List.length_append]; omega
+            rw [hacc'', List.length_append]; omega
     · split
       · exact h
       · simpa [RInv, Recv.acc] using h
@@ -380,38 +538,43 @@ theorem genuine_close (data : List UInt8) (bs : Nat) :
     Genuine data bs { id := 0, sender := 0, sid := 0, kind := .close } := ⟨rfl, rfl, trivial⟩
 
 /-- the invariant of a transfer over a channel that neither alters nor forges -/
-abbrev Inv (data : List UInt8) (bs : Nat) : St → Prop := Tri (SInv data bs) (RInv data bs) (Genuine data bs)
+abbrev Inv (data : List UInt8) (bs B : Nat) : St → Prop := Tri (SInv data bs) (RInv data bs B) (Genuine data bs)
 
-theorem inv_init (bsS bsR size : Nat) (hash : Option (List UInt8)) (data : List UInt8) :
-    Inv data bsS (init bsS bsR size hash data) := by
-  refine ⟨⟨rfl, 0, rfl, by simp [init]⟩, Or.inl ⟨0, by omega, rfl, by simp [init, Recv.acc]⟩, ?_⟩
+theorem inv_init (dev : Dev) (bsS bsR size B : Nat) (hash : Option (List UInt8)) (data : List UInt8)
+    (hdev : B = 65536 → dev = .unlimited) :
+    Inv data bsS B (initDev dev bsS bsR size hash data) := by
+  refine ⟨⟨rfl, 0, rfl, by simp [initDev]⟩, ⟨hdev, Or.inl ⟨0, by omega, rfl, Or.inl (by simp [initDev, Recv.acc])⟩⟩, ?_⟩
   intro q hq
-  simp only [init, Option.some.injEq] at hq
+  simp only [initDev, Option.some.injEq] at hq
   subst hq
   exact ⟨rfl, rfl, trivial⟩
 
-theorem inv_run (H : List UInt8 → List UInt8) (data : List UInt8) (bs : Nat) (hlen : data.length ≤ 65536 * bs)
+theorem inv_run (H : List UInt8 → List UInt8) (data : List UInt8) (bs B : Nat) (hB : B ≤ 65536) (hlen : data.length ≤ B * bs)
     (ops : List Op) (st : St)
-    (hb : ∀ op ∈ ops, op.benign) (h : Inv data bs st) : Inv data bs (run H st ops).1 :=
-  tri_run H (recv_RInv H data bs hlen) (sender_SInv data bs) (genuine_close data bs) ops st hb h
+    (hb : ∀ op ∈ ops, op.benign) (h : Inv data bs B st) : Inv data bs B (run H st ops).1 :=
+  tri_run H (recv_RInv H data bs B hB hlen) (sender_SInv data bs) (genuine_close data bs) ops st hb h
 
-theorem checked_init (H : List UInt8 → List UInt8) (bsS bsR size : Nat) (hash : Option (List UInt8)) (data : List UInt8) :
-    Checked H (init bsS bsR size hash data).r := by
-  intro h; simp [init] at h
+theorem checked_init (H : List UInt8 → List UInt8) (dev : Dev) (bsS bsR size : Nat) (hash : Option (List UInt8)) (data : List UInt8) :
+    Checked H (initDev dev bsS bsR size hash data).r := by
+  intro h; simp [initDev] at h
 
 /-- receiver-side conclusion shared by the "identical bytes" theorems -/
-theorem rinv_success_identical (H : List UInt8 → List UInt8) (data : List UInt8) (bs : Nat) (r : Recv)
-    (hsize : r.size = data.length) (hi : RInv data bs r) (hc : Checked H r) (hs : r.success) : r.acc = data := by
+theorem rinv_success_identical (H : List UInt8 → List UInt8) (data : List UInt8) (bs B : Nat) (r : Recv)
+    (hsize : r.size = data.length) (hi : RInv data bs B r) (hc : Checked H r) (hs : r.success) : r.acc = data := by
   have hck := (checkFails_false_iff H r).1 (hc hs.1 hs.2)
-  rcases hi with ⟨e, _, _, hacc⟩ | ⟨hd, hover⟩
+  rcases hi.2 with ⟨e, _, _, hJ⟩ | ⟨hd, hover⟩
   · by_cases hd : data.length = 0
     · have : data = [] := List.eq_nil_of_length_eq_zero hd
       subst this
-      simpa using hacc
+      rcases hJ with hJ | ⟨_, hJ⟩
+      · simpa using hJ
+      · simp at hJ
     · have hl : r.acc.length = data.length := by rw [← hsize]; exact hck.1 (by omega)
-      rw [hacc] at hl ⊢
-      rw [List.length_take] at hl
-      exact List.take_of_length_le (by omega)
+      rcases hJ with hJ | ⟨_, hJ⟩
+      · rw [hJ] at hl ⊢
+        rw [List.length_take] at hl
+        exact List.take_of_length_le (by omega)
+      · rw [List.length_take] at hJ; omega
   · have hpos : 0 < data.length := List.length_pos_iff.mpr hd
     have hl : r.acc.length = data.length := by rw [← hsize]; exact hck.1 (by omega)
     omega
@@ -439,7 +602,7 @@ def atBlock (bsS bsR size : Nat) (hash : Option (List UInt8)) (data : List UInt8
   { s := { blockSize := bsS, rest := data.drop ((j + 1) * bsS), seq := UInt16.ofNat (j + 1), requestId := j + 2, nextId := j + 3,
            state := .transfer },
     r := { maxBlock := bsR, size := size, hash := hash, state := .transfer, expected := UInt16.ofNat j,
-           accRev := (data.take (j * bsS)).reverse, blockSize := bsS },
+           accRev := (data.take (j * bsS)).reverse, fedRev := (data.take (j * bsS)).reverse, blockSize := bsS },
     pending := some { id := j + 2, sender := 0, sid := 0,
                       kind := .data (UInt16.ofNat j) ((data.drop (j * bsS)).take bsS) } }
 
@@ -448,14 +611,14 @@ theorem init_deliver (H : List UInt8 → List UInt8) (bsS bsR size : Nat) (hash 
     (step H (init bsS bsR size hash data) .deliver).1 = atBlock bsS bsR size hash data 0 := by
   have h1 : ¬ (bsS = 0 ∨ data = []) := by simp [hd]; omega
   have h2 : ¬ (bsR < bsS) := by omega
-  simp [step, deliverStanza, init, toR, feed, recv, sender, atBlock, h1, h2]
+  simp [step, deliverStanza, init, initDev, toR, feed, recv, Recv.write_unlimited_eq, sender, atBlock, h1, h2]
 
 
 theorem atBlock_next (H : List UInt8 → List UInt8) (bsS bsR size : Nat) (hash : Option (List UInt8)) (data : List UInt8)
     (j : Nat) (hb : 0 < bsS) (hmore : (j + 1) * bsS < data.length) :
     (step H (atBlock bsS bsR size hash data j) .deliver).1 = atBlock bsS bsR size hash data (j + 1) := by
   have h2 := take_drop_ne_nil data ((j + 1) * bsS) bsS hmore hb
-  simp [step, deliverStanza, atBlock, toR, feed, recv, sender, h2]
+  simp [step, deliverStanza, atBlock, toR, feed, recv, Recv.write_unlimited_eq, sender, h2]
   refine ⟨?_, ?_⟩
   · rw [Nat.succ_mul (j + 1) bsS]
   · rw [← List.reverse_append, take_succ_block]
@@ -501,11 +664,12 @@ theorem atBlock_last (H : List UInt8 → List UInt8) (bsS bsR size : Nat) (hash 
     rw [take_succ_block]; exact List.take_of_length_le hlast
   have h4 : ((data.drop (j * bsS)).take bsS).reverse ++ (data.take (j * bsS)).reverse = data.reverse := by
     rw [← List.reverse_append, h3]
-  have hcf : ∀ r : Recv, r.size = size → r.hash = hash → r.accRev = data.reverse → r.checkFails H = false := by
-    intro r e1 e2 e3
+  have hcf : ∀ r : Recv, r.size = size → r.hash = hash → r.accRev = data.reverse → r.fedRev = data.reverse →
+      r.checkFails H = false := by
+    intro r e1 e2 e3 e4
     rw [checkFails_false_iff]
-    simpa [Recv.acc, e1, e2, e3] using hck
-  simp [honest, run, step, deliverStanza, atBlock, toR, feed, recv, sender, h2, h4, Send.terminate,
+    simpa [Recv.acc, Recv.fed, e1, e2, e3, e4] using hck
+  simp [honest, run, step, deliverStanza, atBlock, toR, feed, recv, Recv.write_unlimited_eq, sender, h2, h4, Send.terminate,
     Recv.checkData, hcf, Recv.terminate, Recv.success, Send.success, Recv.acc]
 
 
@@ -560,12 +724,12 @@ theorem honest_run (H : List UInt8 → List UInt8) (bsS bsR size : Nat) (hash : 
     st.r.success ∧ st.s.success ∧ st.r.acc = data ∧ st.pending = none := by
   by_cases hd : data = []
   · subst hd
-    have hcf : ∀ r : Recv, r.size = size → r.hash = hash → r.accRev = [] → r.checkFails H = false := by
-      intro r e1 e2 e3
+    have hcf : ∀ r : Recv, r.size = size → r.hash = hash → r.accRev = [] → r.fedRev = [] → r.checkFails H = false := by
+      intro r e1 e2 e3 e4
       rw [checkFails_false_iff]
-      simpa [Recv.acc, e1, e2, e3] using hck
+      simpa [Recv.acc, Recv.fed, e1, e2, e3, e4] using hck
     have h2 : ¬ (bsR < bsS) := by omega
-    simp [honest, run, step, deliverStanza, init, toR, feed, recv, sender, h2, Send.terminate,
+    simp [honest, run, step, deliverStanza, init, initDev, toR, feed, recv, Recv.write_unlimited_eq, sender, h2, Send.terminate,
       Recv.checkData, hcf, Recv.terminate, Recv.success, Send.success, Recv.acc]
   · have hpos : 0 < data.length := List.length_pos_iff.mpr hd
     intro st
@@ -621,7 +785,7 @@ theorem sender_SD (data : List UInt8) (bs e : Nat) (hlen : data.length ≤ 65536
               subst hp
               refine ⟨rfl, rfl, n, hn, he, ?_⟩
               rw [hr, hb] at hne
-              exact block_index_lt data bs n hlen hne
+              exact block_index_lt data bs n 65536 hlen hne
           · refine ⟨⟨by simpa using hb, n, by simpa using hn, by simpa using hr, he⟩, ?_⟩
             intro p hp; simp only [Option.some.injEq] at hp; subst hp; exact ⟨rfl, rfl, trivial⟩
         · refine ⟨⟨by simpa using hb, n, by simpa using hn, by simpa using hr, he⟩, ?_⟩
@@ -765,9 +929,9 @@ theorem earlyClose_closed (hblk : j * bsS < data.length) :
     refine ⟨?_, by omega⟩
     intro hd; simp [hd] at hblk
   refine ⟨trivial, ?_, ?_⟩
-  · simp [step, deliverStanza, atBlock, toR, feed, recv, Recv.checkData, hcf, Recv.terminate, RF, Recv.success]
+  · simp [step, deliverStanza, atBlock, toR, feed, recv, Recv.write_unlimited_eq, Recv.checkData, hcf, Recv.terminate, RF, Recv.success]
   · intro q hq
-    simp [step, deliverStanza, atBlock, toR, feed, recv, sender] at hq
+    simp [step, deliverStanza, atBlock, toR, feed, recv, Recv.write_unlimited_eq, sender] at hq
     subst hq
     exact ⟨rfl, rfl, by simp⟩
 
@@ -778,21 +942,21 @@ theorem swap_doomed (hb : 0 < bsS) (hlen : data.length ≤ 65536 * bsS) (hblk : 
     have h2 := take_drop_ne_nil data ((j + 1) * bsS) bsS hmore hb
     refine ⟨j + 1, ?_, ?_, ?_⟩
     · refine ⟨?_, j + 2, ?_, ?_, by omega⟩
-      · simp [step, deliverStanza, atBlock, toR, feed, recv, sender, ack, h2]
-      · simp [step, deliverStanza, atBlock, toR, feed, recv, sender, ack, h2]
+      · simp [step, deliverStanza, atBlock, toR, feed, recv, Recv.write_unlimited_eq, sender, ack, h2]
+      · simp [step, deliverStanza, atBlock, toR, feed, recv, Recv.write_unlimited_eq, sender, ack, h2]
         rw [UInt16.add_assoc]; rfl
-      · simp [step, deliverStanza, atBlock, toR, feed, recv, sender, ack, h2]
+      · simp [step, deliverStanza, atBlock, toR, feed, recv, Recv.write_unlimited_eq, sender, ack, h2]
         rw [show j + 2 = j + 1 + 1 by rfl, Nat.succ_mul (j + 1) bsS]
     · refine ⟨?_, ?_, ?_, ?_⟩
-      · simp [step, deliverStanza, atBlock, toR, feed, recv, sender, ack, h2]
-      · simp [step, deliverStanza, atBlock, toR, feed, recv, sender, ack, h2]
-      · simp [step, deliverStanza, atBlock, toR, feed, recv, sender, ack, h2, Recv.acc]
+      · simp [step, deliverStanza, atBlock, toR, feed, recv, Recv.write_unlimited_eq, sender, ack, h2]
+      · simp [step, deliverStanza, atBlock, toR, feed, recv, Recv.write_unlimited_eq, sender, ack, h2]
+      · simp [step, deliverStanza, atBlock, toR, feed, recv, Recv.write_unlimited_eq, sender, ack, h2, Recv.acc]
         have key : ∀ x len bs : Nat, x + bs < len → min x len + min bs (len - x) < len := by
           intro x len bs h; omega
         exact key (j * bsS) data.length bsS (by rw [← Nat.succ_mul]; exact hmore)
-      · simp [step, deliverStanza, atBlock, toR, feed, recv, sender, ack, h2, Recv.success]
+      · simp [step, deliverStanza, atBlock, toR, feed, recv, Recv.write_unlimited_eq, sender, ack, h2, Recv.success]
     · intro q hq
-      simp [step, deliverStanza, atBlock, toR, feed, recv, sender, ack, h2] at hq
+      simp [step, deliverStanza, atBlock, toR, feed, recv, Recv.write_unlimited_eq, sender, ack, h2] at hq
       subst hq
       exact ⟨rfl, rfl, trivial⟩
   · -- the held block was the last one: the sender closes, the receiver's check fails, the held block comes too late
@@ -805,17 +969,17 @@ theorem swap_doomed (hb : 0 < bsS) (hlen : data.length ≤ 65536 * bsS) (hblk : 
       intro hd; simp [hd] at hblk
     refine ⟨j, ?_, ?_, ?_⟩
     · refine ⟨?_, j + 1, ?_, ?_, by omega⟩
-      · simp [step, deliverStanza, atBlock, toR, feed, recv, sender, ack, h2, Send.terminate]
-      · simp [step, deliverStanza, atBlock, toR, feed, recv, sender, ack, h2, Send.terminate]
-      · simp [step, deliverStanza, atBlock, toR, feed, recv, sender, ack, h2, Send.terminate]
+      · simp [step, deliverStanza, atBlock, toR, feed, recv, Recv.write_unlimited_eq, sender, ack, h2, Send.terminate]
+      · simp [step, deliverStanza, atBlock, toR, feed, recv, Recv.write_unlimited_eq, sender, ack, h2, Send.terminate]
+      · simp [step, deliverStanza, atBlock, toR, feed, recv, Recv.write_unlimited_eq, sender, ack, h2, Send.terminate]
     · refine ⟨?_, ?_, ?_, ?_⟩
-      · simp [step, deliverStanza, atBlock, toR, feed, recv, sender, ack, h2, Send.terminate, Recv.checkData, hcf, Recv.terminate]
-      · simp [step, deliverStanza, atBlock, toR, feed, recv, sender, ack, h2, Send.terminate, Recv.checkData, hcf, Recv.terminate]
-      · simp [step, deliverStanza, atBlock, toR, feed, recv, sender, ack, h2, Send.terminate, Recv.checkData, hcf, Recv.terminate, Recv.acc]
+      · simp [step, deliverStanza, atBlock, toR, feed, recv, Recv.write_unlimited_eq, sender, ack, h2, Send.terminate, Recv.checkData, hcf, Recv.terminate]
+      · simp [step, deliverStanza, atBlock, toR, feed, recv, Recv.write_unlimited_eq, sender, ack, h2, Send.terminate, Recv.checkData, hcf, Recv.terminate]
+      · simp [step, deliverStanza, atBlock, toR, feed, recv, Recv.write_unlimited_eq, sender, ack, h2, Send.terminate, Recv.checkData, hcf, Recv.terminate, Recv.acc]
         omega
-      · simp [step, deliverStanza, atBlock, toR, feed, recv, sender, ack, h2, Send.terminate, Recv.checkData, hcf, Recv.terminate, Recv.success]
+      · simp [step, deliverStanza, atBlock, toR, feed, recv, Recv.write_unlimited_eq, sender, ack, h2, Send.terminate, Recv.checkData, hcf, Recv.terminate, Recv.success]
     · intro q hq
-      simp [step, deliverStanza, atBlock, toR, feed, recv, sender, ack, h2, Send.terminate, Recv.checkData, hcf, Recv.terminate] at hq
+      simp [step, deliverStanza, atBlock, toR, feed, recv, Recv.write_unlimited_eq, sender, ack, h2, Send.terminate, Recv.checkData, hcf, Recv.terminate] at hq
 
 end faults
 end Qx.C19
@@ -857,7 +1021,11 @@ theorem recv_acc_prefix (H : List UInt8 → List UInt8) (X : List UInt8) (r : Re
         · exact h
         · rename_i seq pl _ _ _
           obtain ⟨t, ht⟩ := h
-          exact ⟨t ++ pl, by rw [Recv.acc_write, ht, List.append_assoc]⟩
+          obtain ⟨w, _, hw⟩ := Recv.write_acc { r with expected := r.expected + 1 } pl
+          refine ⟨t ++ pl.take w, ?_⟩
+          rw [hw]
+          show r.acc ++ pl.take w = X ++ (t ++ pl.take w)
+          rw [ht, List.append_assoc]
     · split
       · exact h
       · exact h
@@ -886,7 +1054,7 @@ variable (H : List UInt8 → List UInt8) (bsS bsR size : Nat) (hash : Option (Li
 theorem flip_acc (bit : Nat) :
     (step H (atBlock bsS bsR size hash data j) (.flip bit)).1.r.acc =
       data.take (j * bsS) ++ flipBit ((data.drop (j * bsS)).take bsS) bit := by
-  simp [step, deliverStanza, atBlock, toR, feed, recv, sender, flipStanza, Recv.acc]
+  simp [step, deliverStanza, atBlock, toR, feed, recv, Recv.write_unlimited_eq, sender, flipStanza, Recv.acc]
 
 theorem dup_eq_deliver :
     (step H (atBlock bsS bsR size hash data j) .dup).1 = (step H (atBlock bsS bsR size hash data j) .deliver).1 ∧
@@ -896,10 +1064,10 @@ theorem dup_eq_deliver :
   have h3 : data.take (j * bsS) ++ (data.drop (j * bsS)).take bsS = data.take ((j + 1) * bsS) := take_succ_block data j bsS
   refine ⟨?_, ?_, ?_⟩
   · by_cases h2 : List.take bsS (List.drop ((j + 1) * bsS) data) = []
-    · simp [step, deliverStanza, atBlock, toR, feed, recv, sender, h2, Send.terminate]
-    · simp [step, deliverStanza, atBlock, toR, feed, recv, sender, h2]
-  · simp [step, atBlock, toR, recv]
-  · simp [step, atBlock, toR, feed, recv, Recv.acc, h3]
+    · simp [step, deliverStanza, atBlock, toR, feed, recv, Recv.write_unlimited_eq, sender, h2, Send.terminate]
+    · simp [step, deliverStanza, atBlock, toR, feed, recv, Recv.write_unlimited_eq, sender, h2]
+  · simp [step, atBlock, toR, recv, Recv.write_unlimited_eq]
+  · simp [step, atBlock, toR, feed, recv, Recv.write_unlimited_eq, Recv.acc, h3]
 
 end flip
 end Qx.C19
@@ -917,7 +1085,7 @@ theorem checked_checkData (H : List UInt8 → List UInt8) (r : Recv) (h : Checke
     · exact h
     · rename_i hck _
       intro _ _
-      simpa [Recv.checkFails, Recv.acc] using hck
+      simpa [Recv.checkFails, Recv.acc, Recv.fed] using hck
 
 theorem sstep_checked (H : List UInt8 → List UInt8) (r : Recv) (op : SOp) (h : Checked H r) : Checked H (sstep H r op) := by
   cases op with
@@ -941,6 +1109,51 @@ theorem srun_checked (H : List UInt8 → List UInt8) (ops : List SOp) (r : Recv)
   induction ops generalizing r with
   | nil => exact h
   | cons op ops ih => exact ih _ (sstep_checked H r op h)
+
+theorem sstep_AF (H : List UInt8 → List UInt8) (r : Recv) (op : SOp) (h : AF r) : AF (sstep H r op) := by
+  cases op with
+  | chunk bytes =>
+    simp only [sstep]
+    split
+    · exact h
+    · split
+      · have := write_AF r bytes h
+        simpa [AF] using this
+      · exact write_AF r bytes h
+  | disconnect =>
+    simp only [sstep]
+    split
+    · exact h
+    · simpa [AF] using h
+
+theorem srun_AF (H : List UInt8 → List UInt8) (ops : List SOp) (r : Recv) (h : AF r) : AF (srun H r ops) := by
+  induction ops generalizing r with
+  | nil => exact h
+  | cons op ops ih => exact ih _ (sstep_AF H r op h)
+
+theorem sstep_AFU (H : List UInt8 → List UInt8) (r : Recv) (op : SOp) (h : AFU r) : AFU (sstep H r op) := by
+  have hw : ∀ b, AFU (r.write b) := by
+    intro b
+    have := Recv.write_unlimited r b h.1
+    exact ⟨by simpa using h.1, by rw [this.1, this.2, h.2]⟩
+  cases op with
+  | chunk bytes =>
+    simp only [sstep]
+    split
+    · exact h
+    · split
+      · simpa [AFU] using hw bytes
+      · exact hw bytes
+  | disconnect =>
+    simp only [sstep]
+    split
+    · exact h
+    · simpa [AFU] using h
+
+theorem srun_AFU (H : List UInt8 → List UInt8) (ops : List SOp) (r : Recv) (h : AFU r) : AFU (srun H r ops) := by
+  induction ops generalizing r with
+  | nil => exact h
+  | cons op ops ih => exact ih _ (sstep_AFU H r op h)
 
 @[simp] theorem sstep_size (H : List UInt8 → List UInt8) (r : Recv) (op : SOp) : (sstep H r op).size = r.size := by
   cases op <;> simp only [sstep] <;> repeat (first | rfl | split | simp)
@@ -977,17 +1190,17 @@ theorem srun_short (H : List UInt8 → List UInt8) (ops : List SOp) (r : Recv)
       · exact ih r hn (by omega)
       · rename_i hst
         simp only [ne_eq, Decidable.not_not] at hst
-        have hacc : ({ r with accRev := b.reverse ++ r.accRev } : Recv).acc.length = r.acc.length + b.length := by
-          simp [Recv.acc] <;> omega
+        obtain ⟨w, hw, hacc⟩ := Recv.write_acc r b
+        have hlen : (r.write b).acc.length ≤ r.acc.length + b.length := by
+          rw [hacc, List.length_append, List.length_take]; omega
+        have hsz : (r.write b).size = r.size := Recv.write_size r b
         split
         · rename_i hge
           have hge2 := hge.2
-          rw [hacc] at hge2
-          have : ({ r with accRev := b.reverse ++ r.accRev } : Recv).size = r.size := rfl
           omega
         · apply ih
           · simp [Recv.success, hst]
-          · rw [hacc]; show r.acc.length + b.length + sbytes ops < r.size; omega
+          · omega
     | disconnect =>
       simp only [srun, sstep]
       simp only [sbytes] at hlt
@@ -1001,23 +1214,22 @@ theorem srun_short (H : List UInt8 → List UInt8) (ops : List SOp) (r : Recv)
 
 theorem sstep_chunk_transfer (H : List UInt8 → List UInt8) (r : Recv) (c : List UInt8) (hst : r.state = .transfer) :
     sstep H r (.chunk c) =
-      if r.size ≠ 0 ∧ (r.acc ++ c).length ≥ r.size then
-        ({ r with accRev := c.reverse ++ r.accRev } : Recv).checkData H
-      else { r with accRev := c.reverse ++ r.accRev } := by
-  simp [sstep, hst, Recv.acc]
+      if r.size ≠ 0 ∧ (r.write c).acc.length ≥ r.size then (r.write c).checkData H else r.write c := by
+  simp [sstep, hst]
 
 theorem check_pass (H : List UInt8 → List UInt8) (data : List UInt8) (r' : Recv)
-    (e1 : r'.size = data.length) (e2 : ∀ h, r'.hash = some h → H data = h) (e3 : r'.acc = data) (e4 : r'.state = .transfer) :
+    (e1 : r'.size = data.length) (e2 : ∀ h, r'.hash = some h → H data = h) (e3 : r'.acc = data) (e5 : r'.fed = data)
+    (e4 : r'.state = .transfer) :
     (r'.checkData H).success ∧ (r'.checkData H).acc = data := by
   have hcf : r'.checkFails H = false := by
     rw [checkFails_false_iff]
-    exact ⟨fun _ => by rw [e3, e1], fun h hh => by rw [e3]; exact e2 h hh⟩
+    exact ⟨fun _ => by rw [e3, e1], fun h hh => by rw [e5]; exact e2 h hh⟩
   refine ⟨?_, by simpa using e3⟩
   unfold Recv.checkData Recv.terminate
   simp [hcf, e4, Recv.success]
 
 theorem srun_honest (H : List UInt8 → List UInt8) (data : List UInt8) (cs : List (List UInt8)) (r : Recv)
-    (hsize : r.size = data.length) (hhash : ∀ h, r.hash = some h → H data = h)
+    (hsize : r.size = data.length) (hhash : ∀ h, r.hash = some h → H data = h) (hu : AFU r)
     (h : (r.state = .transfer ∧ r.acc ++ cs.flatten = data) ∨ (r.success ∧ r.acc = data)) :
     (srun H r (cs.map .chunk ++ [.disconnect])).success ∧ (srun H r (cs.map .chunk ++ [.disconnect])).acc = data := by
   induction cs generalizing r with
@@ -1025,7 +1237,8 @@ theorem srun_honest (H : List UInt8 → List UInt8) (data : List UInt8) (cs : Li
     simp only [List.map_nil, List.nil_append, srun, sstep]
     rcases h with ⟨hst, hacc⟩ | ⟨hs, hacc⟩
     · rw [if_neg (by rw [hst]; decide)]
-      exact check_pass H data r hsize hhash (by simpa using hacc) hst
+      have ha : r.acc = data := by simpa using hacc
+      exact check_pass H data r hsize hhash ha (by rw [← hu.2]; exact ha) hst
     · rw [if_pos hs.1]
       exact ⟨hs, hacc⟩
   | cons c cs ih =>
@@ -1033,23 +1246,27 @@ theorem srun_honest (H : List UInt8 → List UInt8) (data : List UInt8) (cs : Li
     rcases h with ⟨hst, hacc⟩ | ⟨hs, hacc⟩
     · rw [sstep_chunk_transfer H r c hst]
       simp only [List.flatten_cons] at hacc
-      have hacc' : ({ r with accRev := c.reverse ++ r.accRev } : Recv).acc = r.acc ++ c := by simp [Recv.acc]
+      have hw := Recv.write_unlimited r c hu.1
+      have hu' : AFU (r.write c) := ⟨by simpa using hu.1, by rw [hw.1, hw.2, hu.2]⟩
       split
       · rename_i hge
         have hlen := congrArg List.length hacc
         simp only [List.length_append] at hlen
-        have hge2 : r.size ≤ (r.acc ++ c).length := hge.2
+        have hge2 : r.size ≤ (r.write c).acc.length := hge.2
+        rw [hw.1] at hge2
         simp only [List.length_append] at hge2
         have hfl : cs.flatten = [] := by
           apply List.eq_nil_of_length_eq_zero
           omega
         have hfull : r.acc ++ c = data := by simpa [hfl, List.append_assoc] using hacc
-        have hp := check_pass H data { r with accRev := c.reverse ++ r.accRev } hsize hhash (by rw [hacc', hfull]) hst
-        exact ih _ (by simpa using hsize) (by simpa using hhash) (Or.inr hp)
-      · exact ih _ hsize hhash (Or.inl ⟨hst, by rw [hacc', List.append_assoc]; exact hacc⟩)
+        have hp := check_pass H data (r.write c) (by simpa using hsize) (by simpa using hhash) (by rw [hw.1, hfull])
+          (by rw [hw.2, ← hu.2, hfull]) (by simpa using hst)
+        exact ih _ (by simpa using hsize) (by simpa using hhash) (by simpa [AFU] using hu') (Or.inr hp)
+      · exact ih _ (by simpa using hsize) (by simpa using hhash) hu'
+          (Or.inl ⟨by simpa using hst, by rw [hw.1, List.append_assoc]; exact hacc⟩)
     · have : sstep H r (.chunk c) = r := by
         simp [sstep, hs.1]
       rw [this]
-      exact ih r hsize hhash (Or.inr ⟨hs, hacc⟩)
+      exact ih r hsize hhash hu (Or.inr ⟨hs, hacc⟩)
 
 end Qx.C19
